@@ -775,13 +775,17 @@ def render_source(sc):
         # one transition from every non-final state, written as target.from_.any(...) under its own event
         a = sc["any_render"]
         kw_any = [k for k in kwargs_of(a) if not k.startswith("event=")]
-        line = f"    {evname(a['ev'][0])} = {S(a['t'])}.from_.any({', '.join(kw_any)})"
+        any_names = sorted(evname(e_) for e_ in a["ev"])
+        line = f"    {any_names[0]} = {S(a['t'])}.from_.any({', '.join(kw_any)})"
         if sc.get("any_render2"):
             # two from_.any() parts under one event: every non-final state gets one transition of each
             a2 = sc["any_render2"]
             kw2 = [k for k in kwargs_of(a2) if not k.startswith("event=")]
             line += f" | {S(a2['t'])}.from_.any({', '.join(kw2)})"
         body.append(line)
+        for e_more in any_names[1:]:
+            # the same declaration under a further event name
+            body.append(f"    {e_more} = {any_names[0]}")
     out[0] = "from statemachine import " + ", ".join(sorted(imports - {"States"}))
     if "States" in imports:
         pre.insert(0, "from statemachine.states import States")
@@ -843,6 +847,10 @@ def render_source(sc):
         out.append("        super().__init__(*a, **k)")
     if sc.get("falsy_machine"):
         out.append("    def __len__(self): return 0      # a machine that evaluates as false")
+    if sc.get("eq_machine"):
+        # value-style equality: all instances of the class compare (and hash) equal
+        out.append("    def __eq__(self, other): return type(other) is type(self)")
+        out.append("    def __hash__(self): return 7")
     out.append("")
     if sc.get("mixin"):
         # the model is a MachineMixin: it creates its machine itself (by registered class name) and gets
@@ -979,8 +987,10 @@ def render_source(sc):
     kw = []
     if sc.get("start") is not None:
         kw.append(f"start_value={state_value(sc, sc['start'])!r}")
+    # (a third of the rtc=False machines get the option as another falsy value)
+    rtc_false = "0" if (len(sc["trans"]) + sc["n"]) % 3 == 0 else "False"
     if not sc.get("rtc", True):
-        kw.append("rtc=False")
+        kw.append(f"rtc={rtc_false}")
     if sc.get("allow"):
         kw.append("allow_event_without_transition=True")
     out.append("def construct(model, listeners):")
@@ -990,7 +1000,7 @@ def render_source(sc):
     elif sc.get("positional_ctor") and not hooks and not inst:
         # every option given positionally, in the documented order
         sv_ = repr(state_value(sc, sc["start"])) if sc.get("start") is not None else "None"
-        out.append(f"    return M(model, 'state', {sv_}, {bool(sc.get('rtc', True))}, {bool(sc.get('allow'))}, listeners)")
+        out.append(f"    return M(model, 'state', {sv_}, {True if sc.get('rtc', True) else rtc_false}, {bool(sc.get('allow'))}, listeners)")
     else:
         out.append(f"    return M(model{''.join(', ' + k for k in kw)}, listeners=listeners)")
     return "\n".join(out) + "\n"
